@@ -119,7 +119,7 @@ def specLeading (cls : String) (g : G) (rows cols : Nat) (data : List CF) (ans :
         match log2? rows with
         | some N => embedApply N (List.range k) M inRows cols
         | none =>
-          let outCols : List (List CF) := (List.range cols).map fun c => Spec.blockMulVec M (rows / 2 ^ k) (column inRows c)
+          let outCols : List (List CF) := (List.range cols).map fun c => Spec.blockMul .vec 1 M (rows / 2 ^ k) (column inRows c)
           (List.range rows).map fun r => outCols.map fun (col : List CF) => col.getD r 0
       verdict cls (maxDist out expect.flatten)
   | _ => if valid ∧ (log2? rows).isSome then s!"fail {cls}-panic valid request did not return" else "skip"
